@@ -3,6 +3,7 @@ import argparse
 import importlib
 import os
 import signal
+import subprocess
 import sys
 import traceback
 import warnings
@@ -41,6 +42,20 @@ def main():
             proof_ok = proof_ok and ok
         if not build.ok:
             print(build.log[-3000:])
+        # the translated kernels of this property against the real methods on the same arguments
+        # (differential validation of the translator and its bind tables)
+        if any('Source' in m for m in common.prop_modules(a.prop)) and 'EpsieModel.Generated.Source' not in ' '.join(build.failed_modules):
+            import source_corr
+            try:
+                sdivs, sst = source_corr.run(chk.seed, 12 if a.tier == 'quick' else 120, a.prop)
+            except (subprocess.TimeoutExpired, OSError) as e:
+                raise TimeoutError(repr(e))
+            if sst['requests']:
+                chk.coverage['source_translation_correspondence'] = dict(
+                    sst, what='translated kernels (lean/DriverSource.lean) vs the real methods called on real objects '
+                              'in the same state', first=sdivs[:3])
+                chk.obligations.append(('source-translation-correspondence', not sdivs, sdivs[:3]))
+                proof_ok = proof_ok and not sdivs
         mod.run(chk, a.tier, proof_ok)
     except (TimeoutError, OSError, MemoryError) as e:
         traceback.print_exc()
